@@ -577,10 +577,15 @@ pub fn run_c16(ctx: &Ctx) -> (&'static str, Map<String, Value>) {
     // exhaustion histories: the key handed over after the last leaf contains no seed bytes (Engine A oracle)
     let cfgs = crate::props_life::c05_life_cfgs(ctx).into_iter().filter(|c| c.max_steps.is_none() && c.start == 0).take(if ctx.tier.thorough() { 40 } else { 14 }).collect::<Vec<_>>();
     let (agg, labels) = crate::props_life::run_lattice(ctx, cfgs);
+    // exhaustion of shapes that cannot be walked: the successor of the last leaf through the real
+    // increment/wipe path (hook H-b) must not contain seed bytes, for every height tuple
+    let ast = crate::props_pure::arith_sweep(ctx);
     ctx.assume("a new secret-bearing type added later is outside any bounded exploration; the five types named by the property are enumerated");
     ctx.assume("memory is inspected through a MaybeUninit slot after ptr::drop_in_place / zeroize(); compiler-inserted copies elsewhere (moves, registers) are outside the observation");
     let mut m = crate::props_life::coverage(ctx, &agg, &labels, "types x triggers x hashes, every byte of the value's slot scanned for any 4-byte window of the planted secret; plus whole-lifetime runs of Engine A whose last transition must hand over a key without seed bytes", true);
     m.insert("type_trigger_hash_probes".into(), json!(evals));
+    m.insert("exhaustion_accounting_cases".into(), json!(ast.evals));
+    m.insert("exhaustion_accounting_height_tuples".into(), json!(ast.tuples));
     m.insert("evaluations".into(), json!(evals + agg.transitions.load(Ordering::Relaxed)));
     m.insert("distinct_nontrivial".into(), json!(evals));
     let _ = hash(Hid::S32, &[]);
